@@ -15,3 +15,9 @@ Definition row_wf (l : list Z) : bool :=
   match l with [] => false | x :: _ => (0 <=? x) && ascending l end.
 Definition table_wf (t : list ((pystr * Z) * option (list Z))) : bool :=
   forallb (fun row => match snd row with Some l => row_wf l | None => true end) t.
+
+(** [v] is the least valence of the row that accommodates a bond sum of [b2] half units *)
+Definition least_fitting (val : list Z) (b2 v : Z) : Prop :=
+  In v val /\ b2 <= 2 * v /\ forall w, In w val -> b2 <= 2 * w -> v <= w.
+(** the bond sum fits within the largest valence of the row *)
+Definition fits (val : list Z) (b2 : Z) : Prop := exists w, In w val /\ b2 <= 2 * w.
